@@ -1410,7 +1410,7 @@ class Interp:
                 itv = pre.pop(id(g))
             else:
                 itv = self.eval(g.iter, e)
-            if isinstance(itv, (SymList, EnumSym, SymRange)):
+            if isinstance(itv, (SymList, EnumSym, SymRange, ZipSym)):
                 self.unsupported("comprehension over a list of symbolic length", g)
             for x in self.iterate(itv, g):
                 e2 = Env({}, parent=e)
@@ -1461,6 +1461,11 @@ class Interp:
         e2 = Env({}, parent=env)
         if isinstance(itv, SymRange):
             lo, hi, src = itv.lo, itv.hi, None
+        elif isinstance(itv, ZipSym):
+            hi = itv.lists[0].n
+            for L2 in itv.lists[1:]:
+                hi = z3.If(L2.n < hi, L2.n, hi)
+            lo, src = z3.IntVal(0), None
         else:
             L = itv.lst if isinstance(itv, EnumSym) else itv
             lo, hi, src = z3.IntVal(0), L.n, ListView(L)
@@ -1469,6 +1474,8 @@ class Interp:
         try:
             if isinstance(itv, SymRange):
                 tv = SInt(j)
+            elif isinstance(itv, ZipSym):
+                tv = tuple(self.models.symlist_generic_elem(self, L2, j) for L2 in itv.lists)
             else:
                 el = self.models.symlist_generic_elem(self, L, j)
                 tv = (mk_int(j + itv.start), el) if isinstance(itv, EnumSym) else el
@@ -1494,7 +1501,7 @@ class Interp:
     def e_GeneratorExp(self, node, env):
         g0 = node.generators[0]
         itv = self.eval(g0.iter, env)
-        if isinstance(itv, (SymList, EnumSym, SymRange)):
+        if isinstance(itv, (SymList, EnumSym, SymRange, ZipSym)):
             return self.sym_generator(node, env, itv)
         self._iter_cache = {id(g0): itv}       # evaluated once
         out = []
